@@ -44,6 +44,9 @@ structure Entry where
   desc : Desc                    -- data descriptor (local crc/sizes zeroed, flag bit 3 set)
   gapBefore : Bytes              -- unrelated bytes before the local header
   data : Bytes                   -- the stored (compressed / encrypted) bytes
+  /-- version-needed written in the LOCAL header when it differs from the central value
+  (producers that write the local header before the sizes are known) -/
+  localVersion : Option UInt16 := none
   deriving Repr
 
 structure Layout where
@@ -53,6 +56,8 @@ structure Layout where
   comment : Bytes
   zip64End : Bool                -- force a ZIP64 end record + locator
   trailing : Bytes               -- bytes after the end record's comment
+  /-- (version made by, version needed) of the ZIP64 end record -/
+  end64Versions : UInt16 × UInt16 := (45, 45)
   deriving Repr
 
 def Entry.csize (e : Entry) : UInt64 := UInt64.ofNat e.data.length
@@ -68,7 +73,7 @@ def localRecord (e : Entry) : Bytes :=
       le16 1 ++ le16 16 ++ le64 (if d then 0 else e.usize) ++ le64 (if d then 0 else e.csize)
     else []
   let extra := z ++ e.localExtra
-  le32 sigLocal ++ le16 e.versionNeeded ++ le16 e.flagsOut ++ le16 e.method ++ le16 e.time ++
+  le32 sigLocal ++ le16 (e.localVersion.getD e.versionNeeded) ++ le16 e.flagsOut ++ le16 e.method ++ le16 e.time ++
   le16 e.date ++ le32 (if d then 0 else e.crc) ++
   (if e.localZip64 then le32 0xFFFFFFFF ++ le32 0xFFFFFFFF
    else le32 (if d then 0 else lo32 e.csize) ++ le32 (if d then 0 else lo32 e.usize)) ++
@@ -129,7 +134,7 @@ def Layout.needs64 (l : Layout) : Bool :=
 /-- ZIP64 end of central directory record + locator (APPNOTE 4.3.14, 4.3.15) -/
 def Layout.end64 (l : Layout) : Bytes :=
   if l.needs64 then
-    le32 sigEocd64 ++ le64 44 ++ le16 45 ++ le16 45 ++ le32 0 ++ le32 0 ++
+    le32 sigEocd64 ++ le64 44 ++ le16 l.end64Versions.1 ++ le16 l.end64Versions.2 ++ le32 0 ++ le32 0 ++
     le64 (UInt64.ofNat l.count) ++ le64 (UInt64.ofNat l.count) ++ le64 (UInt64.ofNat l.cdSize) ++
     le64 (UInt64.ofNat l.cdOffset) ++
     le32 sigLocator ++ le32 0 ++ le64 (UInt64.ofNat (l.cdOffset + l.cdSize)) ++ le32 1
